@@ -290,6 +290,17 @@ func Run(c Case, h Hooks) Result {
 					for k := 0; k < 1+op.Us; k++ {
 						client.ReadTopology()
 					}
+				case op.Kind == "adddup":
+					// AddNode with an id the manager already has: refused, and nothing of it may stay behind
+					client := clients[op.Mgr%len(clients)]
+					s := op.Call.Node % c.N
+					if n, err := gorums.NewRawNodeWithID(scen.Addr(s), client.IDs[s]); err == nil {
+						err = client.Mgr.AddNode(n)
+						cl.Log.Add(scen.Event{Kind: "adddup", Call: -1, Server: s, Note: fmt.Sprint(err)})
+					}
+				case op.Kind == "register":
+					// a handler registered while the server is running (nothing is arriving meanwhile)
+					cl.RegisterLate(op.Call.Node % c.N)
 				case op.Kind == "stop":
 					cl.Stop(op.Call.Node % c.N)
 				case op.Kind == "start":
